@@ -1,7 +1,9 @@
 /-
   Props/C15_Window.lean — C15 for windows over a supplied source: "an offset or length beyond the supplied
   bytes/bitarray/file raises CreationError … every in-range combination succeeds and has exactly the requested length".
-  `windowSpec` is the property; `bytesWin`, `bitarrayWin`, `bytesioWin`, `fileWin` are the code.
+  `windowSpec` is the property; `bytesWin`, `bitarrayWin`, `bytesioWin`, `fileWin` are the code
+  (`_setbytes_with_truncation`, `_setbitarray`, the BytesIO branch of `_setauto`, `_setfile` + `BitStore.frombuffer`).
+  Full strength since /repo dbe55ac + bcebbd6 (negative offset / length and an offset past the end are refused).
 -/
 import BitstringModel.Model.C15
 import BitstringModel.Proofs.C15Window
@@ -22,53 +24,52 @@ theorem window_ok_iff (src : Bits) (off len : Option Int) (b : Bits) :
 theorem window_length (src : Bits) (off len : Option Int) (b : Bits) (h : windowSpec src off len = .ok b) :
     (b.length : Int) = len.getD ((src.length : Int) - off.getD 0) := window_length_aux src off len b h
 
-/-- `bitarray=` is right whenever offset and length are not negative. -/
-theorem bitarrayWin_eq_partial (ba : Bits) (off len : Option Int) (hneg : winNegative off len = false) :
-    bitarrayWin ba off len = windowSpec ba off len := bitarrayWin_eq_partial_aux ba off len hneg
+/-- Anything else is a ValueError (CreationError): the classification is total. -/
+theorem window_total (src : Bits) (off len : Option Int) :
+    (∃ b, windowSpec src off len = .ok b) ∨ windowSpec src off len = .error .value := by
+  unfold windowSpec; simp only; split
+  · exact Or.inl ⟨_, rfl⟩
+  · exact Or.inr rfl
 
-/-- `bytes=` is right whenever offset and length are not negative and (with no length) the offset is inside the data. -/
-theorem bytesWin_eq_partial (data : List Nat) (off len : Option Int) (hneg : winNegative off len = false)
-    (hbey : len = none → winBeyond (fromBytes data).length off = false) :
-    bytesWin data off len = windowSpec (fromBytes data) off len := bytesWin_eq_partial_aux data off len hneg hbey
+/-- `Bits(bitarray=ba, offset=off, length=len)`: exactly the specification, for every offset and length
+    (negative, beyond the end, `None`) and every source. -/
+theorem bitarrayWin_eq (ba : Bits) (off len : Option Int) :
+    bitarrayWin ba off len = windowSpec ba off len := bitarrayWin_eq_aux ba off len
 
-/-- The BytesIO branch (byte offset / bit offset arithmetic) on the same region. -/
-theorem bytesioWin_eq_partial (data : List Nat) (off len : Option Int) (hneg : winNegative off len = false)
-    (hbey : len = none → winBeyond (fromBytes data).length off = false) :
-    bytesioWin data off len = windowSpec (fromBytes data) off len := bytesioWin_eq_partial_aux data off len hneg hbey
+/-- `Bits(bytes=data, offset=off, length=len)`. -/
+theorem bytesWin_eq (data : List Nat) (off len : Option Int) :
+    bytesWin data off len = windowSpec (fromBytes data) off len := bytesWin_eq_aux data off len
 
-/-- Files (by name or handle, empty files included): right for a non-negative offset, except a zero length at an
-    offset past the end. Negative lengths ARE refused here. -/
-theorem fileWin_eq_partial (data : List Nat) (off len : Option Int)
-    (hoff : 0 ≤ off.getD 0) (hbey : winBeyond (fromBytes data).length off = false ∨ len ≠ some 0) :
-    fileWin data off len = windowSpec (fromBytes data) off len := fileWin_eq_partial_aux data off len hoff hbey
+/-- `Bits(io.BytesIO(data), offset=off, length=len)`: the byte-offset / bit-offset arithmetic
+    (`divmod(offset, 8)`, the chunk of ⌈(length + offset) / 8⌉ − ⌊offset / 8⌋ bytes, the bit slice inside it)
+    selects exactly bits `off … off + len`. -/
+theorem bytesioWin_eq (data : List Nat) (off len : Option Int) :
+    bytesioWin data off len = windowSpec (fromBytes data) off len := bytesioWin_eq_aux data off len
 
-/-! ### known deviations of the pinned tree (decided witnesses; the regions are the hypotheses dropped above) -/
+/-- `Bits(filename=f, …)` and `Bits(open(f, 'rb'), …)` (empty files included). -/
+theorem fileWin_eq (data : List Nat) (off len : Option Int) :
+    fileWin data off len = windowSpec (fromBytes data) off len := fileWin_eq_aux data off len
 
-/-- `window_offset_beyond`: `Bits(bytes=b'\xf0\x0f', offset=17)` is an empty bitstring, as is the BytesIO form;
-    a file accepts `offset=17, length=0`. -/
-theorem window_offset_beyond_deviates :
-    bytesWin [0xf0, 0x0f] (some 17) none = .ok [] ∧ bytesioWin [0xf0, 0x0f] (some 17) none = .ok [] ∧
-    fileWin [0xf0, 0x0f] (some 17) (some 0) = .ok [] ∧
-    windowSpec (fromBytes [0xf0, 0x0f]) (some 17) none = .error .value ∧
-    windowSpec (fromBytes [0xf0, 0x0f]) (some 17) (some 0) = .error .value := by decide
+/-- `window_ok_iff` for each source: success iff `0 ≤ off ∧ 0 ≤ len ∧ off + len ≤ n`, with exactly those bits. -/
+theorem source_window_ok_iff (data : List Nat) (ba : Bits) (off len : Option Int) (b : Bits) :
+    (bytesWin data off len = .ok b ↔ windowSpec (fromBytes data) off len = .ok b) ∧
+    (bytesioWin data off len = .ok b ↔ windowSpec (fromBytes data) off len = .ok b) ∧
+    (fileWin data off len = .ok b ↔ windowSpec (fromBytes data) off len = .ok b) ∧
+    (bitarrayWin ba off len = .ok b ↔ windowSpec ba off len = .ok b) := by
+  rw [bytesWin_eq, bytesioWin_eq, fileWin_eq, bitarrayWin_eq]
+  exact ⟨Iff.rfl, Iff.rfl, Iff.rfl, Iff.rfl⟩
 
-/-- `window_negative`: `Bits(bytes=b, offset=-3)` is the last three bits; a negative length is taken as a slice end. -/
-theorem window_negative_deviates :
-    bytesWin [0xf0, 0x0f] (some (-3)) none = .ok [true, true, true] ∧
-    bitarrayWin [true, false, true, true] (some (-2)) none = .ok [true, true] ∧
-    bitarrayWin [true, false, true, true] none (some (-1)) = .ok [true, false, true] ∧
-    bytesioWin [0xf0, 0x0f] none (some (-3)) = .ok [] ∧
-    fileWin [0xf0, 0x0f] (some (-2)) (some 1) = .ok [true] ∧
-    windowSpec (fromBytes [0xf0, 0x0f]) (some (-3)) none = .error .value ∧
-    windowSpec [true, false, true, true] none (some (-1)) = .error .value := by decide
+/-! ### non-vacuity: in-range, out-of-range and formerly deviant cases, decided -/
 
-/-! ### non-vacuity -/
-
-example : winNegative (some 3) (some 7) = false ∧ winBeyond (fromBytes [1, 2]).length (some 3) = false ∧
-    bytesioWin [0xa5, 0x3c] (some 3) (some 7) = .ok [false, false, true, false, true, false, false] ∧
+example : bytesioWin [0xa5, 0x3c] (some 3) (some 7) = .ok [false, false, true, false, true, false, false] ∧
     windowSpec (fromBytes [0xa5, 0x3c]) (some 3) (some 7) = .ok [false, false, true, false, true, false, false] ∧
     bytesioWin [0xa5, 0x3c] (some 3) (some 14) = .error .value ∧
     fileWin [0xa5, 0x3c] (some 9) none = .ok [false, true, true, true, true, false, false] ∧
     fileWin [] none none = .ok [] ∧ fileWin [] (some 1) none = .error .value := by decide
+example : bytesWin [0xf0, 0x0f] (some 17) none = .error .value ∧ bytesWin [0xf0, 0x0f] (some 16) none = .ok [] ∧
+    bytesWin [0xf0, 0x0f] (some (-3)) none = .error .value ∧ bytesWin [0x01, 0xaa, 0xf0] (some 16) (some 12) = .error .value ∧
+    bitarrayWin [true, false, true, true] none (some (-1)) = .error .value ∧
+    bytesioWin [0xf0, 0x0f] (some 17) none = .error .value ∧ fileWin [0xf0, 0x0f] (some 17) (some 0) = .error .value ∧
+    fileWin [0xf0, 0x0f] (some (-2)) (some 1) = .error .value := by decide
 
 end BM.C15
